@@ -120,8 +120,14 @@ class _Ctx:
 def _fwd(ctx, model, data, order):
     P = M.mk_points(data, order)
     ctx.count("forward_calls")
+    before = P.as_tensor.clone()
     with torch.no_grad():
         out = model(P)
+    if not torch.equal(P.as_tensor, before) and not ctx.res.get("_input_modified_reported"):
+        # a model is a function of its input: the caller's points are the same after the call
+        ctx.res["_input_modified_reported"] = True
+        ctx.violate("input_modified", "forward changed the Points object it was called with (variables stored as %s, max |change| %.3g)"
+                    % (order, float((P.as_tensor - before).abs().max())), monitor="input")
     return out.as_tensor, M.space_pairs(out.space)
 
 
